@@ -62,7 +62,11 @@ FAMILY = ["Administrator", "Beispiel", "Çelik", "Müller-Lüdenscheidt", "O'Nei
 NRS = ["1", "2", "10", "α", "A1", "3b", "11", "Ω-2", "9", "12", "100", "ζ", "1a", "20", ""]
 
 
-def gen_export(r, rich=False):
+def gen_export(r, rich=False, pre=False):
+    """`pre`: many existing assignments (as attendee, as instructor of the same or of another course),
+    tight sizes, --ignore-assigned forced"""
+    if pre:
+        rich = True
     """a partial export + reader options; mostly valid"""
     part_ids = r.sample([1, 2, 3, 10, 20], r.choice([1, 1, 2, 3]))
     track_pool = [1, 2, 3, 5, 10, 11, 100]
@@ -106,6 +110,9 @@ def gen_export(r, rich=False):
              "instructors": "N.N.", "notes": None, "fields": {}, "segments": segs}
         mx = r.choice([None, None, 4, 6, 10, "missing"] if rich else [None, None, 0, 1, 2, 3, 4, 6, 10, "missing"])
         mn = r.choice([None, 0, 0, 1, 2, "missing"] if rich else [None, None, 0, 0, 1, 2, 3, "missing"])
+        if pre:
+            mx = r.choice([1, 2, 2, 3, 4])
+            mn = r.choice([0, 1, 2])
         if mx != "missing":
             c["max_size"] = mx
         if mn != "missing":
@@ -135,6 +142,9 @@ def gen_export(r, rich=False):
             rtracks[str(t)] = {"course_id": r.choice([None, None, None] + course_ids) if r.random() < (0.3 if rich else 0.5) else None,
                                "course_instructor": r.choice(course_ids) if r.random() < 0.2 else None,
                                "choices": ch}
+            if pre and t == sel_track:
+                rtracks[str(t)]["course_id"] = r.choice(course_ids) if r.random() < 0.5 else None
+                rtracks[str(t)]["course_instructor"] = r.choice(course_ids) if r.random() < 0.3 else None
             if r.random() < 0.3 and rtracks[str(t)]["course_instructor"] is not None:
                 # pre-assigned as instructor of the own course
                 rtracks[str(t)]["course_id"] = rtracks[str(t)]["course_instructor"]
@@ -151,17 +161,21 @@ def gen_export(r, rich=False):
     ntracks = len(all_tracks)
     opts = {"track": sel_track if (ntracks > 1 or r.random() < 0.5) else None, "ic": r.random() < 0.5, "ia": r.random() < 0.5,
             "rff": "room_factor" if r.random() < 0.5 else None, "rof": "room_offset" if r.random() < 0.5 else None}
+    if pre:
+        opts["ia"] = True
     return doc, opts, {"sel_part": sel_part, "sel_track": sel_track, "tracks": all_tracks, "parts": part_ids}
 
 
-def corrupt_export(r, doc, opts, info):
-    """one single-field corruption (or a refusal by options); returns a description"""
-    t = str(info["sel_track"])
-    choices = ["kind", "version", "version-old", "no-track-selected", "unknown-track", "timestamp", "del-courses", "del-regs", "del-event",
+EXPORT_CORRUPTIONS = ["kind", "version", "version-old", "no-track-selected", "unknown-track", "timestamp", "del-courses", "del-regs", "del-event",
                "seg-not-bool", "no-nr", "no-shortname", "min>max", "no-fields", "no-persona", "no-family", "status-str", "no-tracks",
                "no-regtrack", "dangling-choice", "dangling-assigned", "dangling-instr", "choice-str", "no-choices", "no-id", "no-track-shortname",
                "regs-array", "course-null", "no-course-id-member", "no-instr-member", "parts-array", "tracks-missing-in-part"]
-    what = r.choice(choices)
+
+
+def corrupt_export(r, doc, opts, info, what=None):
+    """one single-field corruption (or a refusal by options); returns a description"""
+    t = str(info["sel_track"])
+    what = what or r.choice(EXPORT_CORRUPTIONS)
     cs = list(doc["courses"].keys())
     rs = list(doc["registrations"].keys())
     participants = [k for k in rs if doc["registrations"][k]["parts"].get(str(info["sel_part"]), {}).get("status") == 2]
@@ -469,7 +483,7 @@ def stream_cdedb_read(seed, tier, workdir, stream):
     n = scale(tier, 400, 6000)
     cases = []
     for i in range(n):
-        doc, opts, info = gen_export(r)
+        doc, opts, info = gen_export(r, pre=(i % 5 == 1))
         what = None
         if i % 4 == 3:
             what = corrupt_export(r, doc, opts, info)
@@ -516,6 +530,31 @@ def lines_cdedb_read(cases, workdir, stream):
                     want = [k for k, (_, _, ins) in enumerate(parts) if ins == kept[ci]] if ci < len(kept) else None
                     if cc[4] != want:
                         good = False
+                if c["opts"]["ia"]:
+                    # C11, declaratively: places of ignored pre-assigned registrations are reserved
+                    t = str(c["info"]["sel_track"]); sp = str(c["info"]["sel_part"])
+                    probs = []
+                    for ci, cid in enumerate(kept):
+                        cd = c["doc"]["courses"][str(cid)]
+                        mx = cd.get("max_size") if isinstance(cd.get("max_size"), int) else 25
+                        mn = cd.get("min_size") if isinstance(cd.get("min_size"), int) else 0
+                        att = ins = 0
+                        for rid, reg in c["doc"]["registrations"].items():
+                            pp = reg["parts"].get(sp)
+                            if not isinstance(pp, dict) or pp.get("status") != 2:
+                                continue
+                            rt = reg["tracks"][t]
+                            if rt["course_id"] == cid:
+                                if rt["course_instructor"] == cid:
+                                    ins += 1
+                                else:
+                                    att += 1
+                        want = [max(0, mn - att), max(0, mx - att), (att + ins) != 0, att + ins]
+                        got = [ok["courses"][ci][2], ok["courses"][ci][3], ok["courses"][ci][7], len(ok["courses"][ci][8])]
+                        if want != got:
+                            probs.append(f"course {cid}: expected [min,max,fixed,#hidden] {want}, reader {got}")
+                    out.append(line("direct", ["C11"], ok=not probs, what="; ".join(probs[:3]) or "places of ignored registrations reserved", case=i, stream=stream,
+                                    nontrivial=any(len(x[8]) > 0 for x in ok["courses"])))
                 out.append(line("direct", ["C12"], ok=good, what=f"declarative problem: courses {kept} participants {exp_parts[:6]} vs reader courses {got_courses} participants {got_parts[:6]}", case=i, stream=stream))
     return out
 
@@ -633,7 +672,7 @@ def stream_e2e_cde(seed, tier, workdir, stream):
     n = scale(tier, 140, 2500)
     cases = []
     for i in range(n):
-        doc, opts, info = gen_export(r, rich=(i % 3 != 2))
+        doc, opts, info = gen_export(r, rich=(i % 3 != 2), pre=(i % 4 == 1))
         rooms = None
         if r.random() < 0.4:
             rooms = [r.choice([2, 3, 4, 5, 6, 8, 10, 20, 30]) for _ in range(r.randint(1, len(doc["courses"]) + 1))]
@@ -891,10 +930,13 @@ def lines_cli_simple(cases, workdir, stream, binary):
 # --------------------------------------------------------------------------------------------------
 # stream: cli-malformed (C15)
 
-def corrupt_simple(r, doc):
-    what = r.choice(["choice-oob", "instr-oob", "instr-eq-len", "min>max", "no-participants", "no-courses", "part-not-list", "choice-str", "neg-penalty",
+SIMPLE_CORRUPTIONS = ["choice-oob", "instr-oob", "instr-eq-len", "min>max", "no-participants", "no-courses", "part-not-list", "choice-str", "neg-penalty",
                      "no-name", "no-num-max", "num-max-str", "instr-str", "factor-str", "fixed-int", "course-null", "penalty-float", "choice-missing-course",
-                     "huge-index", "neg-index", "top-array", "hidden-not-list"])
+                     "huge-index", "neg-index", "top-array", "hidden-not-list"]
+
+
+def corrupt_simple(r, doc, what=None):
+    what = what or r.choice(SIMPLE_CORRUPTIONS)
     cs, ps = doc["courses"], doc["participants"]
     if what == "choice-oob":
         r.choice(ps)["choices"].append({"course": len(cs) + r.randint(0, 2), "penalty": 0})
@@ -947,30 +989,29 @@ def corrupt_simple(r, doc):
 
 def stream_cli_malformed(seed, tier, workdir, stream):
     r = random.Random(seed * 49979687 + 17)
-    n = scale(tier, 130, 2500)
+    # systematic: every single-field corruption on `bases` fresh base documents
+    bases = scale(tier, 2, 40)
     cases = []
-    for i in range(n):
-        kind = ["simple", "simple", "cde", "cde", "option", "garbage"][i % 6]
-        if kind == "simple":
+    for b in range(bases):
+        for w in SIMPLE_CORRUPTIONS:
             doc, rooms = gen_simple(r, rooms_mode=1)
-            what, doc = corrupt_simple(r, doc)
-            cases.append({"kind": kind, "doc": doc, "what": what, "rooms": rooms})
-        elif kind == "cde":
-            doc, opts, info = gen_export(r)
-            what = None
-            while what is None:
-                d2, o2 = copy.deepcopy(doc), dict(opts)
-                what = corrupt_export(r, d2, o2, info)
-            cases.append({"kind": kind, "doc": d2, "opts": o2, "what": what})
-        elif kind == "option":
-            doc, rooms = gen_simple(r, rooms_mode=0)
-            what = r.choice(["threads-0", "rooms-garbage", "rooms-empty-item", "rooms-neg", "rooms-file-missing", "rooms-file-garbage", "rooms-file-wrong-shape",
-                             "both-rooms", "threads-neg", "threads-str", "track-str", "input-missing"])
-            cases.append({"kind": kind, "doc": doc, "what": what})
-        else:
-            what = r.choice(["empty", "truncated", "binary", "not-json", "nested-deep", "bom"])
-            doc, rooms = gen_simple(r, rooms_mode=0)
-            cases.append({"kind": kind, "doc": doc, "what": what, "cde": r.random() < 0.5})
+            what, doc = corrupt_simple(r, doc, w)
+            cases.append({"kind": "simple", "doc": doc, "what": what, "rooms": rooms})
+        for w in EXPORT_CORRUPTIONS:
+            for attempt in range(20):
+                doc, opts, info = gen_export(r)
+                what = corrupt_export(r, doc, opts, info, w)
+                if what is not None:
+                    cases.append({"kind": "cde", "doc": doc, "opts": opts, "what": what})
+                    break
+        if b % 2 == 0:
+            for w in ["threads-0", "rooms-garbage", "rooms-empty-item", "rooms-neg", "rooms-file-missing", "rooms-file-garbage", "rooms-file-wrong-shape",
+                      "both-rooms", "threads-neg", "threads-str", "track-str", "input-missing"]:
+                doc, rooms = gen_simple(r, rooms_mode=0)
+                cases.append({"kind": "option", "doc": doc, "what": w})
+            for w in ["empty", "truncated", "binary", "not-json", "nested-deep", "bom"]:
+                doc, rooms = gen_simple(r, rooms_mode=0)
+                cases.append({"kind": "garbage", "doc": doc, "what": w, "cde": r.random() < 0.5})
     return cases
 
 
